@@ -151,6 +151,9 @@ func genYModsCase(r *Rng) Case {
 			s1["imports"] = []any{"ma"}
 			delete(all["mc"], "deviate")
 		}
+		if r.Chance(50) {
+			s1["subrpc"] = true // an rpc and a notification written in the submodule: the module's
+		}
 		if r.Chance(60) {
 			// groupings in the submodules: one of mcs2 whose body uses another of its own, used from the other files of the
 			// module (whichever of them is walked first)
@@ -561,6 +564,9 @@ func renderSub(parent string, s mspec) string {
 	if cbool(s, "ident") {
 		fmt.Fprintf(&b, "  identity %sbase;\n  identity %sder { base %sbase; }\n  leaf %sidl { type identityref { base %sbase; } }\n", n, n, n, n, n)
 	}
+	if cbool(s, "subrpc") {
+		fmt.Fprintf(&b, "  rpc %srpc { input { leaf x { type string; } } }\n  notification %snote { leaf y { type string; } }\n", n, n)
+	}
 	if cbool(s, "featcycle") {
 		fmt.Fprintf(&b, "  feature %sfa { if-feature %sfb; }\n  feature %sfb { if-feature %sfa; }\n  leaf %sfl { if-feature %sfa; type string; }\n", n, n, n, n, n, n)
 	}
@@ -626,6 +632,30 @@ func modsClass(err error) string {
 	return "err:other:" + s
 }
 
+// what every module lists: its enabled features, the modules that deviate it, its rpcs and notifications — as listed
+func modelListings(ms schema.ModelSet) string {
+	var names []string
+	for n := range ms.Modules() {
+		names = append(names, n)
+	}
+	sort.Strings(names)
+	out := ""
+	for _, n := range names {
+		m := ms.Modules()[n]
+		var rpcs, notes []string
+		for r := range m.Rpcs() {
+			rpcs = append(rpcs, r)
+		}
+		for r := range m.Notifications() {
+			notes = append(notes, r)
+		}
+		sort.Strings(rpcs)
+		sort.Strings(notes)
+		out += fmt.Sprintf("\nmodule %s features=%v deviations=%v rpcs=%v notifications=%v", n, m.Features(), m.Deviations(), rpcs, notes)
+	}
+	return out
+}
+
 func devObserved(ms schema.ModelSet) string {
 	top := ms.Child("matop")
 	if top == nil {
@@ -646,6 +676,11 @@ func devObserved(ms schema.ModelSet) string {
 	}
 	if n, ok := ms.Notifications()["urn:ma"]["manote"]; ok && n.Schema().Child("nc") != nil {
 		out += fmt.Sprintf(" note-aug=%v", n.Schema().Child("nc").Child("mcnote") != nil)
+	}
+	if m, ok := ms.Modules()["mc"]; ok {
+		_, hasR := m.Rpcs()["mcs1rpc"]
+		_, hasN := m.Notifications()["mcs1note"]
+		out += fmt.Sprintf(" sub-rpc=%v sub-note=%v", hasR, hasN)
 	}
 	// every node belongs to one of the modules: what is written in a submodule belongs to the module it belongs to
 	var bad func(n schema.Node) string
@@ -713,7 +748,7 @@ func runYMods(c Case) string {
 		}
 		d := ""
 		if err == nil {
-			d = dumpModelSet(ms).String() + identListing(ms, "")
+			d = dumpModelSet(ms).String() + identListing(ms, "") + modelListings(ms)
 			if run == 0 {
 				devSeen = devObserved(ms)
 			}
